@@ -97,17 +97,21 @@ async fn main_task(spec: FaultSpec) -> RunOut {
     let mut snap = crate::tap::snapshot_blobs(&dir);
     let all: Vec<Op> = spec.history.iter().cloned().chain(epilogue()).collect();
     for (step, op) in all.into_iter().enumerate() {
-        let fired_before = ctl::with_ctl(|c| c.fault.borrow().as_ref().map_or(false, |p| p.fired));
+        let fired_before = ctl::with_ctl(|c| c.fault.borrow().as_ref().map_or(0, |p| p.fires));
         ctl::with_ctl(|c| c.log.borrow_mut().mark(format!("begin {}", op.short())));
         let outcome = w.apply(op).await;
         if w.storage.is_none() {
-            // a restart op failed: retry once (the fault is single-shot)
-            match w.init(false).await {
-                Ok(()) => {}
-                Err(e) => {
-                    out.findings.push(finding("restart_after_fault", format!("init keeps failing after the fault cleared: {e:#}")));
-                    return out;
+            // a restart op failed: retry until the burst is over (at most three faults)
+            let mut last = String::new();
+            for _ in 0..4 {
+                match w.init(false).await {
+                    Ok(()) => break,
+                    Err(e) => last = format!("{e:#}"),
                 }
+            }
+            if w.storage.is_none() {
+                out.findings.push(finding("restart_after_fault", format!("init keeps failing after the fault cleared: {last}")));
+                return out;
             }
         }
         ctl::quiesce().await;
@@ -116,7 +120,7 @@ async fn main_task(spec: FaultSpec) -> RunOut {
             out.no_harm.push(finding("snapshot", format!("across {} (step {step}): {v}", op.short())));
         }
         snap = snap2;
-        let fired_after = ctl::with_ctl(|c| c.fault.borrow().as_ref().map_or(false, |p| p.fired));
+        let fired_after = ctl::with_ctl(|c| c.fault.borrow().as_ref().map_or(0, |p| p.fires));
         let mut obs = BTreeMap::new();
         for k in &spec.keys {
             obs.insert(*k, w.observe_key(*k, &[0]).await);
@@ -124,7 +128,7 @@ async fn main_task(spec: FaultSpec) -> RunOut {
         out.steps.push(StepRec {
             op,
             outcome,
-            fired_here: fired_after && !fired_before,
+            fired_here: fired_after > fired_before,
             obs,
             worker_alive: ctl::with_ctl(|c| c.task_alive("worker")),
         });
@@ -456,7 +460,15 @@ pub fn run(specs: &[FaultSpec], thorough: bool, with_reads: bool, threads: usize
                     kinds = vec![FaultKind::Errno(libc::EIO)];
                 }
                 for kind in kinds {
-                    items.push((si, FaultPlan::new(op, class, nth, kind)));
+                    // a single fault, and the same fault persisting over the next matching
+                    // operations (a full disk does not go away after one failed call)
+                    let repeats: &[usize] = if thorough { &[1, 2, 3] } else { &[1, 2] };
+                    for &rep in repeats {
+                        if rep > 1 && (op == FaultOp::Read || matches!(kind, FaultKind::Short(..))) {
+                            continue;
+                        }
+                        items.push((si, FaultPlan::new(op, class, nth, kind).repeated(rep)));
+                    }
                 }
             }
         }
@@ -495,7 +507,7 @@ pub fn run(specs: &[FaultSpec], thorough: bool, with_reads: bool, threads: usize
         }
         let (si, plan) = &items[i];
         if stats.samples.len() < 4 && i % 97 == 3 {
-            stats.samples.push(format!("{} :: {:?} {:?} #{} {:?}", specs[*si].name, plan.op, plan.class, plan.nth, plan.kind));
+            stats.samples.push(format!("{} :: {:?} {:?} #{} {:?} x{}", specs[*si].name, plan.op, plan.class, plan.nth, plan.kind, plan.repeat));
         }
         if !fs.is_empty() {
             stats.violations += 1;
